@@ -324,6 +324,8 @@ def obligations(tier):
         if kind == "ODE":
             obs.append(hyper_ob(kind, d, 2, [(), (2,)], False, tshape=()))      # a scalar time, as ODE batches give under vmap
         obs.append(hyper_ob(kind, d, 2, [(), (2,)], True))
+        if kind == "statio":        # matrix-valued designated parameters: flattened one after the other (row-major each)
+            obs.append(hyper_ob(kind, d, 1, [(2, 2), (2, 3)], False))
         obs.append(hyper_ob(kind, d, 1, [(), (2,)], False, order=["b", "a"]))     # list order differs from the dict's key order
         if tier == "thorough":
             obs.append(hyper_ob(kind, d, 2, [(2,), ()], False))
